@@ -25,13 +25,13 @@ theorem tail_true_written (c : CtxSt) (t : TurnIn) (o : Oracles) :
       if t.dry && t.t4on then []
       else match gateCall t o with
         | none => []
-        | some res => writeEntries t o (c.nowIso.getD t.nowMs) res := by
+        | some res => writeEntriesAt t o (tsOf (headIso c t) t.nowMs) res := by
   unfold tail stashAfter
   split
   · rfl
   · cases gateCall t o <;> simp [tailOut]
 
-theorem addLoop_length (a tu : Str) (ts : Int) (i : Nat) (es : List Entry) (fs : List Bool) :
+theorem addLoop_length (a tu : Str) (ts : Ts) (i : Nat) (es : List Entry) (fs : List Bool) :
     (addLoop a tu ts i es fs).length ≤ es.length := by
   induction es generalizing i fs with
   | nil => simp [addLoop]
@@ -41,9 +41,9 @@ theorem addLoop_length (a tu : Str) (ts : Int) (i : Nat) (es : List Entry) (fs :
     · have := ih (i + 1) fs.tail; simp; omega
     · have := ih (i + 1) fs.tail; simp; omega
 
-theorem addLoop_mem (a tu : Str) (ts : Int) (i : Nat) (es : List Entry) (fs : List Bool) :
+theorem addLoop_mem (a tu : Str) (ts : Ts) (i : Nat) (es : List Entry) (fs : List Bool) :
     ∀ w ∈ addLoop a tu ts i es fs,
-      w.agent = a ∧ w.turn = tu ∧ w.tsMs = ts ∧ i ≤ w.slot ∧ w.slot < i + es.length ∧
+      w.agent = a ∧ w.turn = tu ∧ w.ts = ts ∧ i ≤ w.slot ∧ w.slot < i + es.length ∧
       ∃ e, es[w.slot - i]? = some e ∧ w.idText = e.text ∧ w.text = strip e.text ∧ w.vec = e.vec := by
   induction es generalizing i fs with
   | nil => intro w hw; simp [addLoop] at hw
@@ -51,7 +51,7 @@ theorem addLoop_mem (a tu : Str) (ts : Int) (i : Nat) (es : List Entry) (fs : Li
     intro w hw
     simp only [addLoop] at hw
     have rest : ∀ w ∈ addLoop a tu ts (i + 1) es fs.tail,
-        w.agent = a ∧ w.turn = tu ∧ w.tsMs = ts ∧ i ≤ w.slot ∧ w.slot < i + (e :: es).length ∧
+        w.agent = a ∧ w.turn = tu ∧ w.ts = ts ∧ i ≤ w.slot ∧ w.slot < i + (e :: es).length ∧
         ∃ e', (e :: es)[w.slot - i]? = some e' ∧ w.idText = e'.text ∧ w.text = strip e'.text ∧
           w.vec = e'.vec := by
       intro w hw
@@ -66,7 +66,7 @@ theorem addLoop_mem (a tu : Str) (ts : Int) (i : Nat) (es : List Entry) (fs : Li
         exact ⟨rfl, rfl, rfl, Nat.le_refl _, by simp, e, by simp, rfl, rfl, rfl⟩
       · exact rest w h
 
-theorem writeEntries_length (t : TurnIn) (o : Oracles) (ts : Int) (res : RResult) :
+theorem writeEntries_length (t : TurnIn) (o : Oracles) (ts : Ts) (res : RResult) :
     (writeEntries t o ts res).length ≤ min (capNat t.cfg.opsCap) res.entries.length := by
   unfold writeEntries
   split
@@ -85,6 +85,18 @@ theorem writeEntries_length (t : TurnIn) (o : Oracles) (ts : Int) (res : RResult
             simp only [capNat, hcap]
             exact this
 
+
+theorem writeEntriesAt_length (t : TurnIn) (o : Oracles) (ts : Option Ts) (res : RResult) :
+    (writeEntriesAt t o ts res).length ≤ min (capNat t.cfg.opsCap) res.entries.length := by
+  cases ts with
+  | none => simp [writeEntriesAt]
+  | some x => exact writeEntries_length t o x res
+
+theorem writeEntriesAt_mem (t : TurnIn) (o : Oracles) (ts : Option Ts) (res : RResult) (w : Written)
+    (h : w ∈ writeEntriesAt t o ts res) : ∃ x, ts = some x ∧ w ∈ writeEntries t o x res := by
+  cases ts with
+  | none => simp [writeEntriesAt] at h
+  | some x => exact ⟨x, rfl, h⟩
 
 /-- The real `reflect` produces at most one entry, and its text is the summary. -/
 theorem reflectReal_entries (t : TurnIn) (snips : List Str) (ad : Adapter) (res : RResult)
